@@ -15,7 +15,7 @@ RULE = ("call sequences over {open_rx_pipe(0|1|2,a), close_rx_pipe(0|1), open_tx
         "last call is followed by real probe transmissions (a third radio sending to the "
         "user's address and to the TX address; send() to a listening peer). Non-trivial: at "
         "least one role change was observed; distinct = distinct call histories.")
-RULE += (" Later rounds added: neutral calls mixed into the random walks (get_auto_ack, power, an open_rx_pipe(0, empty) the driver refuses, CE driven by the application in TX role), auto-ack for pipe 0 switched on implicitly by ack = True, directed templates beyond the search depth (two TX addresses with auto-ack changes between them; a neutral call before each of two RX entries; auto-ack for pipe 0 off around an RX phase and on again in TX role before a TX address is set).")
+RULE += (" Later rounds added: neutral calls mixed into the random walks (get_auto_ack, power, an open_rx_pipe(0, empty) the driver refuses, CE driven by the application in TX role), auto-ack for pipe 0 switched on implicitly by ack = True, directed templates beyond the search depth (two TX addresses with auto-ack changes between them; a neutral call before each of two RX entries; auto-ack for pipe 0 off around an RX phase and on again in TX role before a TX address is set; the list / tuple form of the auto_ack attribute in templates and walks).")
 REQUIRED = {"rx_entry_pipe0": 300, "probe_user_addr": 100, "probe_tx_addr": 50,
             "tx_pipe0_ack_addr": 200, "send_probe": 100, "ce_at_return": 2000,
             "prim_rx_flip_ce": 500}
@@ -62,6 +62,8 @@ class Ref:
             self.aa0 = bool(op[1] & 1)
         elif n == "listen":
             self.role = "rx" if op[1] else "tx"
+        elif n == "auto_ack_seq":
+            self.aa0 = bool(op[1])
         elif n == "ack" and op[1]:
             self.aa0 = True  # documented: ACK payloads need (and switch on) auto-ack for pipe 0
 
@@ -84,6 +86,10 @@ def do(obj, op):
         obj.get_auto_ack(op[1])
     elif n == "power":
         obj.power = op[1]
+    elif n == "auto_ack_seq":
+        # the sequence form of the attribute: one entry per pipe
+        seq = [bool(op[1])] + [True] * 5
+        obj.auto_ack = seq if op[2] == "list" else tuple(seq)
     elif n == "ack":
         obj.ack = op[1]
     elif n == "open_rx_pipe_rejected":
@@ -102,7 +108,7 @@ NEUTRAL_OPS = [["get_auto_ack", 0], ["get_auto_ack", 2], ["get_auto_ack", 5], ["
                ["open_rx_pipe_rejected", 0], ["open_rx_pipe_rejected", 1], ["ce", True], ["ce", False]]
 FULL_ONLY_NEUTRAL = ("get_auto_ack", "ce")
 # auto-ack for pipe 0 switched on implicitly (ACK payloads); part of the walks and templates of the full driver
-IMPLICIT_AA = [["ack", True], ["ack", False]]
+IMPLICIT_AA = [["ack", True], ["ack", False], ["auto_ack_seq", 1, "list"], ["auto_ack_seq", 0, "tuple"], ["auto_ack_seq", 1, "tuple"]]
 
 
 def obj_state(obj):
@@ -314,9 +320,10 @@ def run_shard(ctx, kind="full", prefix=""):
     tpl = []
     for x in (A, B, C):
         for y in (A, C, E):
-            for aa1 in (None, ["set_auto_ack", 0, 0], ["auto_ack", 0x3E], ["auto_ack", 0]):
+            for aa1 in (None, ["set_auto_ack", 0, 0], ["auto_ack", 0x3E], ["auto_ack", 0], ["auto_ack_seq", 0, "list"]):
                 for z in (C, D, E, A):
-                    for aa2 in (None, ["set_auto_ack", 1, 0], ["auto_ack", 0x3F], ["ack", True]):
+                    for aa2 in (None, ["set_auto_ack", 1, 0], ["auto_ack", 0x3F], ["ack", True], ["auto_ack_seq", 1, "list"],
+                                ["auto_ack_seq", 1, "tuple"]):
                         if kind != "full" and (aa1 or aa2):
                             continue
                         path = [["open_rx_pipe", 0, x], ["open_tx_pipe", y]] + ([aa1] if aa1 else []) + \
@@ -339,9 +346,9 @@ def run_shard(ctx, kind="full", prefix=""):
     if kind == "full":
         for x in (None, A, D):
             for opener in (["listen", False], ["open_tx_pipe", C], ["open_tx_pipe", A]):
-                for aoff in (["set_auto_ack", 0, 0], ["auto_ack", 0x3E], ["auto_ack", 0]):
+                for aoff in (["set_auto_ack", 0, 0], ["auto_ack", 0x3E], ["auto_ack", 0], ["auto_ack_seq", 0, "tuple"]):
                     for where in ("tx", "rx", "rx-late"):
-                        for aon in (["set_auto_ack", 1, 0], ["auto_ack", 0x3F], ["ack", True]):
+                        for aon in (["set_auto_ack", 1, 0], ["auto_ack", 0x3F], ["ack", True], ["auto_ack_seq", 1, "list"]):
                             for z in (C, A):
                                 path = ([["open_rx_pipe", 0, x]] if x else []) + [opener]
                                 if where == "tx":
